@@ -136,3 +136,15 @@ func vItoa(n int) string {
 	}
 	return s
 }
+
+// vChoiceBig picks one of n alternatives for n above 256.
+func vChoiceBig(name string, n int) int {
+	if n <= 256 {
+		return vChoice(name, n)
+	}
+	hi := vChoice(name+".hi", (n+63)/64)
+	lo := vChoice(name+".lo", 64)
+	idx := hi*64 + lo
+	vAssume(idx < n)
+	return idx
+}
